@@ -300,6 +300,7 @@ class Ctx:
         self.evaluations = 0
         self.distinct = set()
         self.samples = []
+        self._sample_tags = set()
         self.mismatches = []      # correspondence failures
         self.spec_failures = []   # property violated by the code on a concrete input
         self.known = load_known(pid)
@@ -352,7 +353,10 @@ class Ctx:
                 self.counters["op:" + c.tag] += 1
             if c.nontrivial:
                 self.distinct.add(hashlib.md5(c.line.encode()).digest())
-            if len(self.samples) < 6 and (c.nontrivial or len(self.samples) < 2):
+            # one sample per op tag (first non-trivial case of each), at most 10
+            skey = c.tag or "-"
+            if c.nontrivial and skey not in self._sample_tags and len(self.samples) < 10:
+                self._sample_tags.add(skey)
                 self.samples.append({"request": c.line[:400], "code": str(c.impl)[:300], "model": mo[:300]})
             if mo == "bad-op":
                 self.mismatches.append({"request": c.line, "code": c.impl, "model": mo,
